@@ -84,12 +84,16 @@ func VerifC05Scoping() {
 	x, y := zz.Float64("x"), zz.Float64("y")
 	vs.SetValue("X", x)
 	vs.SetValue("Y", y)
-	tmpl := zz.Choice("template", 13)
+	tmpl := zz.Choice("template", 15)
 	if only := zz.Param("TEMPLATE", -1); only >= 0 {
 		zz.Assume(tmpl == only)
 	}
 	var src string
 	switch tmpl {
+	case 13: // the same func expression evaluated twice (a closure factory called twice): each closure keeps ITS definition scope
+		src = "func mk(n) {\n return func(v) {\n  return v + n\n }\n}\nf1 := mk(X)\nf2 := mk(Y)\nr := f1(1)\ng := f2(1)"
+	case 14: // a helper declared inside a function that is called twice sees the locals of the current call
+		src = "func outer(a) {\n func helper() {\n  return a\n }\n return helper()\n}\nr := outer(X)\ng := outer(Y)"
 	case 0: // assignment updates the nearest enclosing definition
 		src = "a := X\nfunc f() {\n a := a + 1\n return a\n}\nr := f()\ng := a"
 	case 1: // let always defines locally
@@ -167,6 +171,12 @@ func VerifC05Scoping() {
 		zz.Assert(r == nil && g == nil, "C05.missing-argument-is-null")
 	case 12:
 		c05Num(vs, "r", x-y, "C05.positional-parameters")
+	case 13:
+		c05Num(vs, "r", 1+x, "C05.closure-captures-definition-scope")
+		c05Num(vs, "g", 1+y, "C05.closure-captures-definition-scope")
+	case 14:
+		c05Num(vs, "r", x, "C05.fresh-locals-per-call")
+		c05Num(vs, "g", y, "C05.fresh-locals-per-call")
 	}
 }
 
